@@ -579,8 +579,14 @@ class Request(object):
         return self
 
 
-def _xml_value(parent, ns, name, spec, value):
+XSI_NIL = '{http://www.w3.org/2001/XMLSchema-instance}nil'
+
+
+def _xml_value(parent, ns, name, spec, value, nil=False):
     if value is None:
+        if nil:
+            etree.SubElement(parent, '{%s}%s' % (ns, name)).set(XSI_NIL,
+                                                                 'true')
         return
     if spec.kind == 'prim':
         etree.SubElement(parent, '{%s}%s' % (ns, name)).text = spec.text(value)
@@ -597,14 +603,16 @@ def _xml_value(parent, ns, name, spec, value):
             cns = s.cls.get_namespace()
             for fn, fs in s.fields:
                 if fn in value:
-                    _xml_value(el, cns, fn, fs, value[fn])
+                    _xml_value(el, cns, fn, fs, value[fn], nil)
+                elif nil and fs.kind == 'prim':
+                    _xml_value(el, cns, fn, fs, None, nil)
     elif spec.kind == 'array':
         el = etree.SubElement(parent, '{%s}%s' % (ns, name))
         acls = spec.cls
         member_name, = acls._type_info.keys()
         ans = acls.get_namespace()
         for item in value:
-            _xml_value(el, ans, member_name, spec.item, item)
+            _xml_value(el, ans, member_name, spec.item, item, nil)
     else:
         raise ValueError(spec.kind)
 
@@ -650,7 +658,7 @@ def _quote(s):
 
 
 def encode_request(uni, in_prot, mname, args, wrappers=False, app=None,
-                                                          method_name=None):
+                                          method_name=None, xsi_nil=False):
     """Valid request for `mname(**args)` in input protocol `in_prot`.
     `method_name` overrides the name put on the wire (unknown-method case)."""
     m = uni.methods[mname]
@@ -662,7 +670,7 @@ def encode_request(uni, in_prot, mname, args, wrappers=False, app=None,
         root = etree.Element('{%s}%s' % (tns, wire), nsmap={'t': tns})
         for an, sp in m.args:
             if an in args:
-                _xml_value(root, tns, an, sp, args[an])
+                _xml_value(root, tns, an, sp, args[an], xsi_nil)
         if in_prot == 'xml':
             doc = root
         else:
@@ -696,7 +704,9 @@ def encode_request(uni, in_prot, mname, args, wrappers=False, app=None,
         for an, sp in m.args:
             if an in args:
                 _flat_value(pairs, an, sp, args[an])
-        qs = '&'.join('%s=%s' % (_quote(k), _quote(v)) for k, v in pairs)
+        # (most clients send array brackets in keys unescaped)
+        qs = '&'.join('%s=%s' % (_quote(k).replace('%5B', '[')
+                      .replace('%5D', ']'), _quote(v)) for k, v in pairs)
         return Request('GET', '/' + wire, qs, None, b'', label)
     raise ValueError(in_prot)
 
